@@ -293,9 +293,17 @@ def load_known():
 
 
 def match_known(mod, sc, msg):
-    sig = mod.signature(sc, msg) if hasattr(mod, "signature") else {}
+    if isinstance(sc, dict) and set(sc) == {"suite", "scenario"} and sc["suite"] in getattr(mod, "SUBSUITES", {}):
+        pid = mod.ID
+        mod, sc = mod.SUBSUITES[sc["suite"]], sc["scenario"]   # a case of a sub-suite: its own signature()
+    else:
+        pid = mod.ID
+    try:
+        sig = mod.signature(sc, msg) if hasattr(mod, "signature") else {}
+    except Exception:  # noqa - a signature that cannot read the scenario matches nothing
+        sig = {}
     for e in load_known():
-        if e.get("property") != mod.ID or e.get("status") != "open":
+        if e.get("property") != pid or e.get("status") != "open":
             continue
         want = e.get("signature", {})
         if want and all(sig.get(k) == v for k, v in want.items()):
